@@ -4,7 +4,66 @@
 		g_hk = nondet_size_t(); g_u32 = nondet_u32(); g_hb = nondet_u8(); \
 		g_free_calls = nondet_size_t(); g_alloc_ok = nondet_size_t(); g_alloc_fail = nondet_size_t(); \
 		__CPROVER_assume(g_free_calls < ((size_t) 1 << 40) && g_alloc_ok < ((size_t) 1 << 40) && g_alloc_fail < ((size_t) 1 << 40)); \
-		g_nt = nondet_size_t(); g_t0 = nondet_ptr(); g_t1 = nondet_ptr(); g_t2 = nondet_ptr(); \
+		g_m0 = nondet_bool(); g_m1 = nondet_bool(); \
 		VP_HAVOC_PROTO(); VP_HAVOC_SYNC();    \
 	} while (0)
-void h_sub0_matches(void) { sub0_ctx *ctx; uint8_t *body; size_t len; VP_HAVOC_GHOSTS(); sub0_matches(ctx, body, len); VP_CANARY(); }
+
+/* ---- skeleton builders: real objects, real list code, everything else nondet ---- */
+static void *vp_new(size_t sz)
+{
+	void *p = malloc(sz); /* contents nondeterministic */
+	__CPROVER_assume(p != NULL);
+	return (p);
+}
+static sub0_topic *vp_mk_topic(nni_list *l, bool on)
+{
+	sub0_topic *t   = vp_new(sizeof(*t));
+	t->node.ln_next = NULL;
+	t->node.ln_prev = NULL;
+	__CPROVER_assume(t->len <= SUB_MAXTOPIC);
+	t->buf = NULL; /* NNI_ALLOC_STRUCT zeroes; a buffer exists only for len > 0 */
+	if (t->len > 0) {
+		t->buf = vp_new(t->len);
+	}
+	if (on) {
+		real_list_append(l, t);
+	}
+	return (t);
+}
+static void vp_mk_ctx(sub0_ctx *c)
+{
+	c->sock         = g_s;
+	c->node.ln_next = NULL;
+	c->node.ln_prev = NULL;
+	real_list_init_offset(&c->topics, offsetof(sub0_topic, node));
+	real_list_append(&g_s->contexts, c);
+}
+/* socket with nc contexts; master has nt topics, the second context nu */
+static void vp_mk_sock(size_t nc, size_t nt, size_t nu)
+{
+	__CPROVER_assume(nc >= 1 && nc <= 2 && nt <= 3 && nu <= 3);
+	g_nc = nc; g_nt = nt; g_nu = nu;
+	g_s  = vp_new(sizeof(*g_s));
+	real_list_init_offset(&g_s->contexts, offsetof(sub0_ctx, node));
+	vp_mk_ctx(&g_s->master);
+	g_t0 = vp_mk_topic(&g_s->master.topics, nt > 0);
+	g_t1 = vp_mk_topic(&g_s->master.topics, nt > 1);
+	g_t2 = vp_mk_topic(&g_s->master.topics, nt > 2);
+	g_qa_addr = &g_s->master.recv_queue;
+	g_qb_addr = NULL;
+	g_pollr_addr = &g_s->readable;
+	g_pollw_addr = NULL;
+	g_c1 = NULL; g_u0 = NULL; g_u1 = NULL; g_u2 = NULL;
+	if (nc == 2) {
+		g_c1 = vp_new(sizeof(*g_c1));
+		vp_mk_ctx(g_c1);
+		g_u0 = vp_mk_topic(&g_c1->topics, nu > 0);
+		g_u1 = vp_mk_topic(&g_c1->topics, nu > 1);
+		g_u2 = vp_mk_topic(&g_c1->topics, nu > 2);
+		g_qb_addr = &g_c1->recv_queue;
+	}
+	g_pp       = vp_new(sizeof(*g_pp));
+	g_pp->sub  = g_s;
+}
+
+void h_sub0_matches(void) { uint8_t *body; size_t len; VP_HAVOC_GHOSTS(); vp_mk_sock(1, nondet_size_t(), 0); sub0_matches(&g_s->master, body, len); VP_CANARY(); }
